@@ -353,8 +353,12 @@ def run_assign(spec, rec):
             seg = core.Segment('PID', version=v)
             seg.pid_1 = '1'
             seg.pid_5 = 'AB'
+            nrep = 1 + (i // 2) % 3
+            for r in range(1, nrep):
+                # further repetitions of the field: they are encoded with the characters given, like the first
+                seg.add_field('PID_5').value = 'CD%d' % r
             sbefore = seg.to_er7(dict(ec))
-            node = seg.pid_5[0]
+            node = seg.pid_5[(i // 6) % nrep]
             while node.children.list:
                 node = node.children.list[0]
             node.value = dt
@@ -364,6 +368,7 @@ def run_assign(spec, rec):
                           {'exc': repr(e)[:200]})
             continue
         rec.count('assign_shape_comparisons_parentless_segment')
+        rec.count('assign_shape_comparisons_parentless_segment:repetitions=%d' % nrep)
         if er7ref.shape(er7ref.tokenize_segment(sbefore, ec)[1]) != er7ref.shape(er7ref.tokenize_segment(safter, ec)[1]):
             rec.violation('datatype-object-changed-counts', dict(case, where='parentless segment'),
                           {'before': sbefore, 'after': safter})
